@@ -116,7 +116,7 @@ def gen_energy(rng, cid, offmid=False):
         for _ in range(rng.randint(1, 2)):
             pl = GEOM["h"] * 0.25 if offmid else None
             tubes.append(tube_spec(rng, times, dimp if not offmid else 1, mult=rng.choice([1, 2, 3, 5]), plane=pl,
-                                   nt=gnt, nz=gnz))
+                                   nt=gnt, nz=gnz, T0=rng.choice([550.0, 550.0, 500.0, 625.0])))   # tubes of one panel may start differently
         panels.append([n, tubes])
     order = names[:]
     rng.shuffle(order)        # declared order differs from insertion order
@@ -127,6 +127,8 @@ def gen_energy(rng, cid, offmid=False):
     fps = [["f%d" % i, {"panels": p, "mass_flow": [rng.choice([60.0, 90.0])] * len(times),
                         "inlet": [500.0 + 10.0 * ti for ti in range(len(times))]}] for i, p in enumerate(paths)]
     c = base_case(cid, times, panels, fps)
+    if cid % 2:
+        c["page"] = True          # results paged to disk (one scratch directory per run)
     c["meta"] = {"kind": "offmid" if offmid else "energy", "paths": paths}
     return c
 
